@@ -405,28 +405,41 @@ func RefOf(in ssa.Instruction) InstrRef {
 //   - barrier: instructions that stop a path (the barrier itself is not "visited")
 //   - visit: called for every instruction reached; returning true stops the search and makes Reach return that instruction
 //
-// Calls to functions that never return (NoReturn) stop a path. Returns the first instruction for
-// which visit returned true, or nil.
+// Calls to functions that never return (NoReturn) stop a path. Paths are threaded through
+// boolean flag phis: when a block is entered from predecessor P and ends in an If whose condition
+// is (a negation of) a Phi of the same block whose operand for P is a boolean constant, only the
+// consistent successor is followed (this removes the infeasible paths of the
+// "ok := true; …; ok = false; …; if !ok" idiom). Returns the first instruction for which visit
+// returned true, or nil.
 func Reach(fn *ssa.Function, start ssa.Instruction, cut EdgeSet, barrier func(ssa.Instruction) bool, visit func(ssa.Instruction) bool) ssa.Instruction {
 	if len(fn.Blocks) == 0 {
 		return nil
 	}
+	cells := boolCells(fn)
 	type item struct {
-		b *ssa.BasicBlock
-		i int
+		b    *ssa.BasicBlock
+		i    int
+		pred *ssa.BasicBlock
+		env  string // known values of tracked bool cells, encoded "idx=0/1;"
 	}
-	seenTop := map[*ssa.BasicBlock]bool{}
+	type key struct {
+		b, pred *ssa.BasicBlock
+		env     string
+	}
+	seenTop := map[key]bool{}
 	var work []item
 	if start == nil {
-		work = append(work, item{fn.Blocks[0], 0})
-		seenTop[fn.Blocks[0]] = true
+		work = append(work, item{fn.Blocks[0], 0, nil, ""})
+		seenTop[key{fn.Blocks[0], nil, ""}] = true
 	} else {
 		r := RefOf(start)
-		work = append(work, item{r.B, r.I + 1})
+		work = append(work, item{r.B, r.I + 1, nil, ""})
 	}
 	for len(work) > 0 {
 		it := work[len(work)-1]
 		work = work[:len(work)-1]
+		env := decodeEnv(it.env)
+		loads := map[ssa.Value]bool{}
 		stopped := false
 		for i := it.i; i < len(it.b.Instrs); i++ {
 			in := it.b.Instrs[i]
@@ -445,21 +458,206 @@ func Reach(fn *ssa.Function, start ssa.Instruction, cut EdgeSet, barrier func(ss
 				stopped = true
 				break
 			}
+			if len(cells) > 0 {
+				switch x := in.(type) {
+				case *ssa.Store:
+					if a, ok := x.Addr.(*ssa.Alloc); ok {
+						if idx, tracked := cells[a]; tracked {
+							if k, ok := x.Val.(*ssa.Const); ok && k.Value != nil && k.Value.Kind() == constant.Bool {
+								env[idx] = constant.BoolVal(k.Value)
+							} else {
+								delete(env, idx)
+							}
+						}
+					}
+				case *ssa.UnOp:
+					if x.Op == token.MUL {
+						if a, ok := x.X.(*ssa.Alloc); ok {
+							if idx, tracked := cells[a]; tracked {
+								if v, known := env[idx]; known {
+									loads[x] = v
+								}
+							}
+						}
+					}
+				}
+			}
 		}
 		if stopped {
 			continue
 		}
+		only := -1
+		if it.pred != nil && it.i == 0 {
+			only = threadedSucc(it.b, it.pred)
+		}
+		if only < 0 {
+			if i := IfOf(it.b); i != nil {
+				c := i.Cond
+				neg := false
+				for {
+					u, ok := c.(*ssa.UnOp)
+					if ok && u.Op == token.NOT {
+						neg = !neg
+						c = u.X
+						continue
+					}
+					break
+				}
+				if v, known := loads[c]; known {
+					if neg {
+						v = !v
+					}
+					if v {
+						only = 0
+					} else {
+						only = 1
+					}
+				}
+			}
+		}
+		envS := encodeEnv(env)
 		for si, s := range it.b.Succs {
+			if only >= 0 && si != only {
+				continue
+			}
 			if cut != nil && cut[Edge{it.b, si}] {
 				continue
 			}
-			if !seenTop[s] {
-				seenTop[s] = true
-				work = append(work, item{s, 0})
+			k := key{s, it.b, envS}
+			if !seenTop[k] {
+				seenTop[k] = true
+				work = append(work, item{s, 0, it.b, envS})
 			}
 		}
 	}
 	return nil
+}
+
+// boolCells finds local bool variables kept in memory cells (captured by a closure or address
+// taken) whose only stores are boolean constants in fn itself and that closures only read.
+func boolCells(fn *ssa.Function) map[*ssa.Alloc]int {
+	out := map[*ssa.Alloc]int{}
+	for _, b := range fn.Blocks {
+		for _, in := range b.Instrs {
+			a, ok := in.(*ssa.Alloc)
+			if !ok {
+				continue
+			}
+			pt, ok := a.Type().Underlying().(*types.Pointer)
+			if !ok {
+				continue
+			}
+			if bt, ok := pt.Elem().Underlying().(*types.Basic); !ok || bt.Kind() != types.Bool {
+				continue
+			}
+			good := true
+			if refs := a.Referrers(); refs != nil {
+				for _, r := range *refs {
+					switch x := r.(type) {
+					case *ssa.Store:
+						if x.Addr != ssa.Value(a) {
+							good = false
+						}
+					case *ssa.UnOp:
+					case *ssa.DebugRef:
+					case *ssa.MakeClosure:
+						cl := x.Fn.(*ssa.Function)
+						for bi, bd := range x.Bindings {
+							if bd == ssa.Value(a) && bi < len(cl.FreeVars) {
+								if fr := cl.FreeVars[bi].Referrers(); fr != nil {
+									for _, rr := range *fr {
+										if u, ok := rr.(*ssa.UnOp); !ok || u.Op != token.MUL {
+											good = false
+										}
+									}
+								}
+							}
+						}
+					default:
+						good = false
+					}
+				}
+			}
+			if good {
+				out[a] = len(out)
+			}
+		}
+	}
+	return out
+}
+
+func encodeEnv(env map[int]bool) string {
+	if len(env) == 0 {
+		return ""
+	}
+	keys := make([]int, 0, len(env))
+	for k := range env {
+		keys = append(keys, k)
+	}
+	sort.Ints(keys)
+	var sb strings.Builder
+	for _, k := range keys {
+		v := 0
+		if env[k] {
+			v = 1
+		}
+		fmt.Fprintf(&sb, "%d=%d;", k, v)
+	}
+	return sb.String()
+}
+
+func decodeEnv(s string) map[int]bool {
+	env := map[int]bool{}
+	for _, part := range strings.Split(s, ";") {
+		if part == "" {
+			continue
+		}
+		var k, v int
+		fmt.Sscanf(part, "%d=%d", &k, &v)
+		env[k] = v == 1
+	}
+	return env
+}
+
+// threadedSucc: b entered from pred ends in If on a phi of b with a constant bool for pred →
+// index of the only feasible successor, else -1.
+func threadedSucc(b, pred *ssa.BasicBlock) int {
+	i := IfOf(b)
+	if i == nil {
+		return -1
+	}
+	c := i.Cond
+	neg := false
+	for {
+		u, ok := c.(*ssa.UnOp)
+		if ok && u.Op == token.NOT {
+			neg = !neg
+			c = u.X
+			continue
+		}
+		break
+	}
+	ph, ok := c.(*ssa.Phi)
+	if !ok || ph.Block() != b {
+		return -1
+	}
+	for pi, p := range b.Preds {
+		if p == pred && pi < len(ph.Edges) {
+			k, ok := ph.Edges[pi].(*ssa.Const)
+			if !ok || k.Value == nil || k.Value.Kind() != constant.Bool {
+				return -1
+			}
+			val := constant.BoolVal(k.Value)
+			if neg {
+				val = !val
+			}
+			if val {
+				return 0
+			}
+			return 1
+		}
+	}
+	return -1
 }
 
 // NoReturn reports calls that never return.
